@@ -361,7 +361,7 @@ class AsyncBaseClient:
     ) -> Optional[Dict[str, Any]]:
         try:
             message_dict = json.loads(message)
-        except json.JSONDecodeError as exc:
+        except (json.JSONDecodeError, UnicodeDecodeError) as exc:
             raise GraphQLClientInvalidMessageFormat(message=message) from exc
 
         if not isinstance(message_dict, dict):
